@@ -250,6 +250,13 @@ def arith_exprs(depth):
     return out
 
 
+def slug(prefix, text):
+    """Stable unit name derived from the expression text (so that known-finding keys do not depend on list positions)."""
+    import zlib
+
+    return f"{prefix}_{zlib.crc32(text.encode()) & 0xFFFFFF:06x}"
+
+
 def flatten_parens(e):
     return e.replace("(", "").replace(")", "")
 
@@ -259,7 +266,7 @@ def corpus(tier):
     thorough = tier == "thorough"
     # ---- arithmetic trees (grouping, precedence, floor semantics) -------------------------------------------------
     for k, (e, sig) in enumerate(arith_exprs(3 if thorough else 2)):
-        nm = f"ar{k}"
+        nm = slug("ar", e)
         args = []
         for a, b, c in [(a, b, c) for a in (-7, 2, 5) for b in (-3, 3) for c in (-2, 4)]:
             try:
@@ -273,14 +280,14 @@ def corpus(tier):
     # ---- float and mixed arithmetic --------------------------------------------------------------------------------
     fexprs = ["x + y", "x - y", "x * y", "x / y", "x // y", "x % y", "x + n", "n * x", "n / m", "x / n", "n // y", "x % n", "(x + y) * n", "x * (y - n)", "n / (m + 1)", "x ** 2.0", "n ** m"]
     for k, e in enumerate(fexprs):
-        nm = f"fl{k}"
+        nm = slug("fl", e)
         args = [(x, y, n, m) for x in (-1.5, 0.5, 2.0) for y in (0.5, -2.0) for n in (-7, 3) for m in (2, 5)]
         drv = "\n".join(f"println({nm}({x}, {y}, {n}, {m}))" for x, y, n, m in args)
         U.append(Unit(nm, f"def {nm}(x: float, y: float, n: int, m: int) -> float:\n    return {e}", drv, tags=("float", e) + (("parens",) if "(" in e else ())))
     # ---- comparisons and boolean operators ---------------------------------------------------------------------------
     bexprs = ["a < b", "a <= b", "a > b", "a >= b", "a == b", "a != b", "a < b and b < c", "a < b or b < c", "not (a < b)", "(a < b) == (b < c)", "a < b and (b < c or a == c)", "(a < b or b < c) and a != c", "not (a == b) and not (b == c)"]
     for k, e in enumerate(bexprs):
-        nm = f"bo{k}"
+        nm = slug("bo", e)
         args = [(a, b, c) for a in (1, 2) for b in (1, 3) for c in (0, 2, 3)]
         drv = "\n".join(f"println({nm}({a}, {b}, {c}))" for a, b, c in args)
         U.append(Unit(nm, f"def {nm}(a: int, b: int, c: int) -> bool:\n    return {e}", drv, tags=("bool", e) + (("parens",) if "(" in e else ())))
@@ -910,7 +917,7 @@ def grammar_units(tier):
         body = ""
         for j, (_, text) in enumerate(seq):
             body += text.replace("kk", f"k{j}").replace("for i in", f"for i{j} in").replace("if i ==", f"if i{j} ==").replace("if i %", f"if i{j} %").replace("y += i", f"y += i{j}") + "\n"
-        nm = f"gq{k}"
+        nm = slug("gq", "|".join(n for n, _ in seq))
         decl = f"def {nm}(x0: int, y0: int) -> int:\n    mut x = x0\n    mut y = y0\n" + ind(body.rstrip("\n")) + "\n    return x * 1000 + y"
         drv = "\n".join(f"println({nm}({a}, {b}))" for a, b in args)
         units.append(Unit(nm, decl, drv, tags=("seq",) + tuple(n for n, _ in seq)))
